@@ -293,6 +293,14 @@ class C16(core.Check):
         else:
             n0 = min(len(s) for s in files.values())
         pairs = gen_matches(rnd, max(2, n0 - 1))
+        if not case['latex'] and rnd.random() < .5:
+            # a match that reaches exactly the end of the (shortest) submitted text, its final line break included
+            # (the shell appends one if the file has none)
+            n1 = min(len(s) + (0 if s.endswith('\n') else 1) for s in files.values())
+            if n1 >= 4:
+                pairs.append([n1 - 3, 3])
+                pairs.sort()
+                cnt['shell_match_up_to_text_end'] = 1
         args = ['--output', 'html', '--context', str(case['ctx'])]
         if not case['latex']:
             args.append('--plain-input')
@@ -372,7 +380,7 @@ class C16(core.Check):
         return {'fam_direct': 3000, 'rows_checked': 10000, 'matches_in_place': 3000, 'matches_in_overlap_list': 500,
                 'matches_split_over_lines': 100, 'whole_file_reports': 300, 'shell_reports': 60,
                 'shell_reports_fully_checked': 30, 'index_pages': 10, 'multi_file_reports_fully_checked': 20,
-                'shellml_reports': 100, 'direct_with_swapped_pieces': 500, 'matches_with_unordered_positions': 100, 'shellml_own_messages': 300, 'shelltex_repeated_part': 10}
+                'shellml_reports': 100, 'shell_match_up_to_text_end': 40, 'direct_with_swapped_pieces': 500, 'matches_with_unordered_positions': 100, 'shellml_own_messages': 300, 'shelltex_repeated_part': 10}
 
 
 CHECK = C16
